@@ -198,6 +198,7 @@ package ftp
 //@   check safety
 //@   requires conn != nil && s != nil && ftpConn != nil
 //@   physical 0 <= nsends && nsends < 1<<48
+//@   ensures [no-goroutines] gostarts == old(gostarts)
 //@   modifies *
 //@   loop 1: invariant nsends == old(nsends) + loopiter
 //@ func (*ftpPassiveSocket).GoListenAndServe$1
@@ -233,6 +234,8 @@ package ftp
 //@   callpre (*Server).newConn: fresh(recv)
 //@   callpre (*Server).newConn: typeis(driver, *Fs) && fresh(unbox(driver, *Fs)) && fresh(unbox(driver, *Fs).Htfs)
 //@   ensures [pump-ends] closed(recv)
+//@   ensures [one-helper] gostarts == old(gostarts) + 1
+//@   physical 0 <= gostarts && gostarts < 1<<40
 //@   modifies *
 //
 // ---- passive data sockets (property C09): the listening socket is released ----
